@@ -124,7 +124,7 @@ def _gen_labels(r, n, kind=None):
     if kind == 'range':
         return list(range(n))
     if kind == 'int':
-        return r.sample(range(-50, 50), n)
+        return r.sample(range(-50 - 10 * n, 50 + 10 * n), n)
     if kind == 'float':
         return [round(r.uniform(-5, 5), 3) + i for i in range(n)]
     if kind == 'str':
